@@ -9,7 +9,10 @@ CLAIMED = {
    text=('PARTIAL: a small proved core + exact correspondence, the rest validated against the dense state. Proved in Coq (hand-written model of '
          'DoublePepsTensor.add_charge_swaps_, for every symmetry descriptor): the pending charge swaps on the ten legs of a two-layer tensor are the leg-wise group sum of '
          'all inserted charges -- every occurrence of a leg adds the charge once more, other legs are untouched, insertions commute, a second insertion on a leg adds to '
-         'the pending charge, a charge and its inverse cancel. The model is compared exactly with the real method for random insertion histories in 6 symmetries. NOT '
+         'the pending charge, a charge and its inverse cancel. The model is compared exactly with the real method for random insertion histories in 6 symmetries. '
+         'Proved on programs TRANSLATED from yastn/tn/fpeps/envs/_env_window.py on every run (tr_window): while the fermionic string of a 2-site measurement passes a '
+         'site (same row/column and later ones) the swaps it leaves there do not depend on whether that site is among the requested pairs, a listed site is measured '
+         'exactly once with its operator set and restored, and both sweeps leave the same string. NOT '
          'proved: the environment contractions, positivity of bond metrics, exactness of evolution steps -- on finite PEPS (1x3 .. 3x3; product states + random shallow '
          'circuits; spinless / spinful fermions, spins) the identity, 1-site, nearest-neighbour, 2-site (both directions, sub-windows) and 3-site expectation values of '
          'boundary-MPS, CTM (init=dl + expand_outward_) and BP (strips) environments are compared with the dense state using explicit Jordan-Wigner matrices; NTU bond '
@@ -18,7 +21,7 @@ CLAIMED = {
    design_ref='DESIGN.md section 0.2 / 6 C12',
    note=('Trusted: Coq kernel, no axioms; the swaps model is hand-written (tied by exact correspondence); dense references rely on Peps.to_tensor (validated by C11) and on '
          'the explicit Jordan-Wigner matrices of tools/checks/C07.py; tolerance 1e-8; lattices are small (<= 9 sites) because the reference is the dense state.'),
-   technique='Coq proof (group-sum bookkeeping of charge swaps) + exact correspondence + dense-state oracles for all exact environments'),
+   technique='Coq proof (group-sum bookkeeping of charge swaps; string programs translated from the source) + exact correspondence + dense-state oracles for all exact environments'),
  'C11': dict(
    category='proof',
    text=('PARTIAL proof on closed forms regenerated from the source + exact correspondence + dense oracles. The closed-form gates (gate_nn_hopping, gate_nn_Ising, '
